@@ -605,7 +605,7 @@ class FieldHistory(History):
 
 SUBCHECKS = [
     SubCheck("RequestMachine_nojit", history=RequestHistory, mode="nojit",
-             budget={"quick": 800, "thorough": 20000}, shards={"quick": 8, "thorough": 16},
+             budget={"quick": 480, "thorough": 20000}, shards={"quick": 8, "thorough": 16},
              steps={"quick": 10, "thorough": 14}, time_limit={"quick": 240, "thorough": 1500},
              rule="non-trivial = two requests of the history share an equal grid (or are both expressions) and "
                   "differ in exactly one other attribute"),
